@@ -1,7 +1,7 @@
 (** C11 — events reach every listening catch event exactly once and delivery never blocks.
     Model: Model/Inbox.v — a catch event as a function of its FIFO message sequence (arming requests
     of arriving tokens and delivered events), and delivery to listeners with bounded inboxes. *)
-From BV Require Import Model.Inbox Proofs.InboxProofs.
+From BV Require Import Model.Inbox Proofs.InboxProofs Model.Arming Proofs.ArmingProofs Gen.Facts.
 
 (* EXACTLY ONCE — for every message history of a listener: every token that armed it has either
    continued exactly once or is still waiting ... *)
@@ -51,3 +51,20 @@ Print Assumptions C11_delivery_returns_refuted_before_fix.
 Example C11_nonvacuous :
   lrun 1 [Some 1; None; Some 2; None; Some 1; Some 1; None] = {| armed := true; waiting := 1; conts := 2 |}.
 Proof. reflexivity. Qed.
+
+(* BOUNDARY EVENTS ARE LISTENERS TOO (Model/Arming.v): the harness opens itself for events before it arms the boundary
+   events one after the other — [src_active_before_arm], read off activity.go on every run — so an event delivered the
+   moment a boundary event announces that it listens, while the others are still being armed, is forwarded to it:
+   for any number of boundary events and any moment of the arming *)
+Theorem C11_announced_boundary_listener_gets_its_event : forall n s, areach src_active_before_arm n s -> dropped s = 0.
+Proof. exact announced_listener_gets_its_event. Qed.
+Print Assumptions C11_announced_boundary_listener_gets_its_event.
+Theorem C11_delivery_to_announced_listener_is_forwarded : forall n s i s',
+  areach src_active_before_arm n s -> astep src_active_before_arm n s (ADeliver i) = Some s' -> got s' = aupd (got s) i.
+Proof. exact delivery_to_announced_is_forwarded. Qed.
+Print Assumptions C11_delivery_to_announced_listener_is_forwarded.
+(* opened only after the arming (a seeded change): the first listener's event, delivered on its announcement, is dropped *)
+Theorem C11_forwarding_refuted_when_opened_after_arming :
+  exists s, aexec false 3 (ainit 3) [AArm; ADeliver 0; AArm; AArm; ASetActive] = Some s /\ dropped s = 1 /\ got s = [0; 0; 0].
+Proof. exact refuted_active_after_arming. Qed.
+Print Assumptions C11_forwarding_refuted_when_opened_after_arming.
